@@ -1124,7 +1124,15 @@ func checkC17(w *World, r *Report) {
 				okS = false
 			}
 		}
-		r.Check(okS, "C17.R3", fname(a.wStart)+":inbox-then-dial", "the writer's inbox is started (with the writer as processer) on every path", w.fnPos(a.wStart), "the writer never consumes its inbox")
+		for _, ci := range w.callsIn(a.wStart, EvCall("init", a.wInit)) {
+			if callKind(ci) != "call" {
+				okS = false
+			}
+		}
+		if !sg.AfterEntry(w.Nodes(sg, EvCall("init", a.wInit), true)) {
+			okS = false
+		}
+		r.Check(okS, "C17.R3", fname(a.wStart)+":inbox-then-dial", "the writer's inbox is started (with the writer as processer) and the connection is dialled synchronously, on every path", w.fnPos(a.wStart), "the writer never consumes its inbox, or it starts consuming before the stream exists (nil stream in Invoke)")
 		// Shutdown
 		hg := w.FG(a.wShutdown)
 		hs := w.fnPos(a.wShutdown)
